@@ -217,3 +217,20 @@ func (s *SourceControl) VerifActiveAny() *AnySource {
 
 // VerifNchan / VerifWritingBasePath: small accessors used to build valid and invalid arguments.
 func (ds *AnySource) VerifNchan() int { return ds.nchan }
+
+// VerifActiveKind names the kind of the source selected by the last Start ("" if unknown).
+func (s *SourceControl) VerifActiveKind() string {
+	switch s.ActiveSource.(type) {
+	case *TriangleSource:
+		return "triangle"
+	case *SimPulseSource:
+		return "simpulse"
+	case *ErroringSource:
+		return "erroring"
+	case *LanceroSource:
+		return "lancero"
+	case *AbacoSource:
+		return "abaco"
+	}
+	return ""
+}
